@@ -28,6 +28,8 @@ Property theorems (manifest — the harness audits `#print axioms` of each):
 -- reads back), and kernel-evaluated *tests* of the whole pipeline on concrete expressions below; the tokenizer/tree half is tied to the
 -- implementation differentially on every generated text (harness/c03.py: the tree the model reads is compared with the tree the generator
 -- wrote down, exactly).
+-- UPDATE: proved since, for the grammar the harness's renderer writes, in `Props/C03Parse.lean` (`tokenize_render`, `parse_tokens`,
+-- `render_roundtrip`, `conv_text_render`) over the Lean port of that renderer (`Model/UnitRender.lean`).
 -/
 namespace QcelVerif.Units.Text
 open QcelVerif.PStr (Bytes)
